@@ -31,7 +31,7 @@ def step (line : String) : String :=
       | some [.str s] => encF (JsOp.rustParseF64 s) | _ => "bad-op")
     else
     let arity1 := ["to_string", "to_number", "parse_float", "str_to_number", "to_negative", "abstract_max",
-      "abstract_min", "parse_float_add", "parse_float_mul", "ser", "to_number_value",
+      "abstract_min", "parse_float_add", "parse_float_mul", "ser", "to_number_value", "strict_eq_same",
       "spec.to_number", "spec.parse_float", "spec.string_to_number"]
     let n := if arity1.contains cmd then 1 else 2
     match parseMany n toks with
@@ -56,6 +56,7 @@ def step (line : String) : String :=
       | "abstract_ne", [a, b] => encB (JsOp.abstractNe a b)
       | "strict_eq", [a, b] => encB (JsOp.strictEq a b)
       | "strict_ne", [a, b] => encB (JsOp.strictNe a b)
+      | "strict_eq_same", [_] => encB true      -- one instance compared with itself: the pointer-identity shortcut (JS: `a === a`)
       | "abstract_lt", [a, b] => encB (JsOp.abstractLt a b)
       | "abstract_gt", [a, b] => encB (JsOp.abstractGt a b)
       | "abstract_lte", [a, b] => encB (JsOp.abstractLte a b)
